@@ -18,7 +18,7 @@ add("C03", "symbolic execution of CVSS2.__init__/scores() from source over finit
     "All v2 metric assignments (6.9e8) covered symbolically, including the None/number distinction of temporal and environmental scores; solver-decided equivalence with the exact specification, counterexamples replayed.",
     COMMON_NOTE, "DESIGN.md section 6 C03")
 add("C02", "symbolic execution of CVSS4.__init__ (m, macroVector, compute_base_score with real float/EPSILON/half-up at the leaves) in 270 macrovector forks; z3 decides impl==exact-rational spec per score value in every fork",
-    "All assignments of all 32 v4.0 metrics covered symbolically; the case split over macrovectors is itself solver-checked for feasibility and exhaustiveness; in each fork z3 proves the reported float equals the exact interpolation result. The 270 lookup scores of the oracle are a pinned copy (stated limit).",
+    "All assignments of all 32 v4.0 metrics covered symbolically; the case split over macrovectors is itself solver-checked for feasibility and exhaustiveness; in each fork z3 proves the reported float equals the exact interpolation result. Thorough tier: all 270 macrovectors; quick tier: complete table lemmas (lookup table, MAX_COMPOSED, MAX_SEVERITY) plus a seeded third of the macrovectors (the complete run takes about 25 minutes). The 270 lookup scores of the oracle are a pinned copy (stated limit).",
     COMMON_NOTE, "DESIGN.md section 6 C02")
 add("C04", "inductive lemmas on the real parse_vector code: one field slot (legal literals + near-miss alphabet, exact CPython string semantics) from an arbitrary metric map, code around the loop on head x abstract chunks, check_mandatory from an arbitrary map; z3 decides each step against the grammar step",
     "One-step lemmas from an arbitrary loop state, each decided by the solver over all states and all slot values; composed by a written induction to any number of fields. Bounded by the finite field alphabet (listed in evidence).",
@@ -68,7 +68,7 @@ add("C19", "effect log of every store / ambient call / print with its path condi
     COMMON_NOTE, "DESIGN.md section 6 C19 and section 8")
 
 add("C14", "product execution (pair-valued leaves, two-sided control flow) of the real constructors per metric step; z3 decides the guard of every reachable (before, after) pair with after < before; v4: lookup-table lemma plus a seeded sample of product-execution forks",
-    "v2 (20 steps) and v3.0/v3.1 (41 steps each): every reachable score pair is constructed symbolically and each order-violating pair must be proved unreachable - complete over the stated (quick: reduced, thorough: full) domains. v4: complete only for the lookup-table lemma; product execution covers a seeded sample (stated).",
+    "v2 (20 steps) and v3.0/v3.1 (41 steps each): every reachable score pair is constructed symbolically and each order-violating pair must be proved unreachable - complete over the full domain (all other metrics symbolic) except five steps with diverging control flow (S, MS, C/I/A None->Low), which run in restricted configurations (stated in the evidence). v4: complete only for the lookup-table lemma; product execution covers a seeded sample (stated).",
     COMMON_NOTE, "DESIGN.md section 6 C14")
 
 NA = {
